@@ -460,6 +460,9 @@ impl Property for C12 {
         ]
     }
 
+    fn exhaustive_is_whole_domain(&self, tier: Tier) -> bool {
+        tier == Tier::Thorough
+    }
     fn exhaustive_claim(&self, tier: Tier) -> Option<String> {
         match tier {
             Tier::Quick => None,
